@@ -93,7 +93,7 @@ func genC19(t *rapid.T, tier string) interface{} {
 	if rapid.IntRange(0, 9).Draw(t, "keybase") == 0 {
 		maxOps := 8
 		p.KB = rapid.SliceOfN(rapid.Custom(func(t *rapid.T) c19KBOp {
-			o := c19KBOp{Op: rapid.SampledFrom([]string{"create", "importobj", "importarmor", "importarmor", "update", "update", "delete", "sign", "sign", "exportarmor", "exportarmor", "exportobj", "get"}).Draw(t, "op")}
+			o := c19KBOp{Op: rapid.SampledFrom([]string{"create", "importobj", "importarmor", "importarmor", "importbad", "update", "update", "delete", "sign", "sign", "exportarmor", "exportarmor", "exportobj", "get"}).Draw(t, "op")}
 			o.Addr = rapid.IntRange(0, 5).Draw(t, "addr")
 			o.Seed = rapid.IntRange(0, 3).Draw(t, "seed")
 			o.Pass = rapid.IntRange(0, len(c19Passes)-1).Draw(t, "pass")
@@ -422,6 +422,50 @@ func execC19KB(p *c19Prog, c *Case) *Violation {
 				}
 				model[a] = &c19Entry{pub: pk.PublicKey(), pass: pass}
 				order = append(order, a)
+			}
+		case "importbad":
+			// a damaged armor (one character changed, or cut short) offered with the right passphrase: refused, no
+			// crash, nothing stored (the listing is compared with the model after every step)
+			if len(exports) == 0 {
+				continue
+			}
+			ex := exports[mod(o.Exp, len(exports))]
+			bad := []byte(ex.armor)
+			if o.Seed%2 == 0 && len(bad) > 40 {
+				pos := 30 + mod(o.Addr*37+o.Pass, len(bad)-40)
+				if bad[pos] == 'A' {
+					bad[pos] = 'B'
+				} else {
+					bad[pos] = 'A'
+				}
+			} else {
+				bad = bad[:len(bad)/2]
+			}
+			if o.KB2 {
+				kb = kbs[1]
+			}
+			var err error
+			res := catch(func() { _, err = kb.ImportPrivKey(string(bad), ex.pass, c19Passes[mod(o.Pass2, len(c19Passes))]) })
+			if res.panicked {
+				return violf("C19/keybase/import-panics", "step %d: ImportPrivKey of a damaged armor panicked: %v", step, res.pv)
+			}
+			if err == nil && string(bad) != ex.armor {
+				a := string(sdk.Address(ex.pub.Address()))
+				target := models[0]
+				if o.KB2 {
+					target = models[1]
+				}
+				if _, exists := target[a]; !exists {
+					// accepted although damaged: at least it must then be the same key (e.g. the change hit armor padding)
+					kp, gerr := kb.Get(sdk.Address([]byte(a)))
+					if gerr != nil || !bytes.Equal(kp.PublicKey.RawBytes(), ex.pub.RawBytes()) {
+						return violf("C19/keybase/damaged-armor-imported", "step %d: a damaged armor was imported as another key", step)
+					}
+					target[a] = &c19Entry{pub: ex.pub, pass: c19Passes[mod(o.Pass2, len(c19Passes))]}
+					if !o.KB2 {
+						order = append(order, a)
+					}
+				}
 			}
 		case "importarmor":
 			if len(exports) == 0 {
